@@ -17,6 +17,7 @@ Conventions
 * a raised exception (`numpy.min` of an empty array, `IndexError`) is `raised`.
 -/
 import DeapModel.Core.Scalar
+import DeapModel.Core.NDSort
 
 namespace Nsga3
 
@@ -358,5 +359,40 @@ def memAfter (solve : List (List α) → List α → Option (List α)) : Mem α 
     memAfter solve ⟨some n.1, some n.2.1, some n.2.2.1⟩ rest
 
 end Full
+
+/-! ### `selNSGA3` end to end: the non-dominated sort included
+
+`pareto_fronts` is no longer an input: it is what the C04 models of `sortNondominated` /
+`sortLogNondominated` (`Core/NDSort.lean`, proved equal to peeling in C04) compute from the weighted
+values.  The sort compares exact scalars `ρ` (every double is a rational); `toF` is the embedding of
+those values into the real-valued scalars of the normalisation and association (`-wvalues`,
+lines 541-542). -/
+
+section EndToEnd
+variable {α : Type} [RealLike α]
+variable {ρ : Type} [LT ρ] [LE ρ] [DecidableEq ρ] [DecidableLT ρ] [DecidableLE ρ] [Add ρ] [Neg ρ]
+  [Inhabited ρ]
+
+/-- individuals = their positions, with their weighted values -/
+def mkPop (wv : List (List ρ)) : List (NDSort.Ind ρ) :=
+  (List.range wv.length).zipWith (fun i w => ⟨i, w⟩) wv
+
+/-- lines 531-537: `sortNondominated(individuals, k)` or `sortLogNondominated(individuals, k)` -/
+def sortBy (logSort : Bool) (wv : List (List ρ)) (k : Nat) : Option (List (List Nat)) :=
+  ((if logSort then NDSort.sortLog (mkPop wv) k else NDSort.sortStd (mkPop wv) k false)).map
+    (fun fr => fr.map (fun f => f.map (·.id)))
+
+/-- `selNSGA3(individuals, k, ref_points, nd, best_point, worst_point, extreme_points)` from the
+weighted values alone; `Err.fuel` = the sort did not terminate within its fuel (C04 proves it does). -/
+def selNSGA3E (toF : ρ → α) (solve : List (List α) → List α → Option (List α)) (logSort : Bool)
+    (wv : List (List ρ)) (k : Nat) (refs : List (List α)) (mb mw : Option (List α))
+    (me : Option (List (List α))) (tape : Tape) : Except Err (List Nat) :=
+  match sortBy logSort wv k with
+  | none => .error .fuel
+  | some fronts =>
+    selNSGA3Full solve fronts k (fun i => (wv.getD i []).map (fun x => - toF x)) refs
+      mb mw me tape
+
+end EndToEnd
 
 end Nsga3
